@@ -1047,7 +1047,11 @@ func genC12(w *World, r *Rng, tier string) {
 					}
 				}
 				s2 := cands[r.Intn(len(cands))]
-				w.Append(v, s2)
+				// (repeated appends of long buffers to themselves double the storage: keep a view below
+				// a few thousand samples, the model replays every store of every dump)
+				if b.Len()+w.views[s2].Len() <= 3000 {
+					w.Append(v, s2)
+				}
 			}
 		}
 	}
